@@ -263,8 +263,25 @@ func (r *Run) c16Scenario(i int) {
 				delay = time.Until(batchStart.Add((time.Since(batchStart)/batchEvery + 1) * batchEvery))
 			}
 			mu.Unlock()
+			// now and then another node (multi-homed, or guessing its neighbours' sequential transaction IDs) sends a
+			// response under this query's transaction ID from its own address, just ahead of the genuine answer
+			var forged []byte
+			var forger *simNode
+			mu.Lock()
+			if lrng.Intn(6) == 0 {
+				if f := nodes[lrng.Intn(nn)]; f.addr.String() != sn.addr.String() {
+					forger = f
+					forged = mkReply(string(d.t), bD("id", bB(f.id[:]), "token", bB([]byte("forged-"+string(f.token))),
+						"values", bL(bB(compactAddr(net.IP{8, 8, 4, 4}, 53))))).enc()
+				}
+			}
+			mu.Unlock()
 			go func() {
 				time.Sleep(delay)
+				if forged != nil {
+					conn.inject(forged, forger.addr)
+					conn.waitIdle(2 * time.Second)
+				}
 				mu.Lock()
 				if reply.get("r") != nil {
 					tk := "-"
